@@ -71,3 +71,11 @@ pub assume_specification<P: AsRef<Path>> [std::fs::remove_dir] (p: P) -> (r: std
 pub assume_specification<P: AsRef<Path>, Q: AsRef<Path>> [std::fs::copy] (p: P, q: Q) -> (r: std::io::Result<u64>);
 #[verifier::allow(undeclared_external_trait)]
 pub assume_specification<P: AsRef<Path>, Q: AsRef<Path>> [std::fs::rename] (p: P, q: Q) -> (r: std::io::Result<()>);
+
+// rule R33 targets: the filetime crate's setters (an OS effect; nothing is assumed about the result)
+#[verifier::external_body]
+fn verif_set_file_mtime(p: PathBuf, t: SystemTime) -> (r: std::io::Result<()>)
+{ unimplemented!() }
+#[verifier::external_body]
+fn verif_set_file_atime(p: PathBuf, t: SystemTime) -> (r: std::io::Result<()>)
+{ unimplemented!() }
